@@ -259,6 +259,7 @@ RULES: Dict[str, Tuple[str, str]] = {
     'OO-12': ('ha.error_scan_is_the_subdag', 'the error scan of a sub-dag answers for exactly the nodes of that sub-dag'),
     'ER-11': ('ha.task_registry_only_grows', 'the registry of created tasks, which run() scans for failures, is only added to during a run'),
     'CC-13': ('ha.no_blocking_wait_on_loop', 'nothing that runs on the event-loop thread waits for another thread'),
+    'SH-12': ('sh.memoisation', 'the key of a memoised method tells apart calls that differ in an argument'),
     'SH-11': ('ha.two_runs_share_no_mutable_state', 'two run managers of one DAG share no mutable object besides the DAG'),
     'ER-13': ('ha.caught_error_not_rendered', 'no handler on the run path renders (str / f-string) the exception it caught'),
     'ER-12': ('ha.verdict_before_own_cancellation', 'the verdict of the run is read before the engine cancels its own tasks'),
@@ -737,6 +738,13 @@ _add('C09', 'SW-7', 'SW-8')
 _add('C04', 'EX-5')
 _add('C05', 'ER-12', 'ER-13')
 _add('C02', 'WK-n')
+_add('C03', 'SH-12')
+_add('C19', 'ST-1')
+_add('C11', 'SH-12')
+_add('C06', 'RT-4')
+_add('C09', 'RC-12')
+_add('C10', 'ER-1')
+_add('C11', 'ON-2')
 _add('C04', 'WK-n')
 _add('C07', 'SH-11')
 _add('C08', 'SH-11')
